@@ -393,6 +393,8 @@ class Session:
 
     def no_panic(self, oid, E, pre, desc='', bindings=(), bounds=None, assumptions=None, only=None, split=None):
         """no panic (overflow check, unwrap, assert, index) is reachable under pre"""
+        if self._skip(oid):
+            return True
         panics = [p for p in E.panics if only is None or only(p)]
         extra = {'bounds': bounds or '', 'pre': assumptions or [], 'panic_sites': len(panics)}
         if not panics:
